@@ -1,57 +1,68 @@
 //! K-core::screen - C08: refresh_memory_dependent_devices (iterator code, outside the Verus
-//! subset) re-establishes shadow == RAM for every display bank: after bytes reached RAM behind the
-//! bus (snapshot / screen file / poke) the shadow of bank 0 (48K) resp. banks 5 AND 7 (128K) holds
-//! them, whichever bank is currently displayed.
+//! subset) forwards EVERY byte of EVERY display bank to the screen shadow: bank 0 on the 48K,
+//! banks 5 AND 7 on the 128K, whichever bank is currently displayed.
+//! The 2 x 16384-iteration loops over the real pages did not finish in 40 minutes, so the page
+//! accessor is replaced by 4-byte stand-in pages (the loop is over whatever slice the accessor
+//! returns: parametric in its length; that the accessor returns exactly the bank is
+//! K-core::memory::page_slices) and ZXScreen::update by a recorder (its effect on the shadow is the
+//! Verus contract of the real `update`, unit screen).
 use super::host::*;
-use crate::utils::screen::{bitmap_col_rel, bitmap_line_rel};
-use crate::zx::{controller::ZXController, machine::ZXMachine};
+use super::sna::page_stub;
+use crate::host::FrameBuffer;
+use crate::zx::{controller::ZXController, machine::ZXMachine, video::screen::ZXScreen};
 
-fn check(machine: ZXMachine, ram_bank: u8, local: usize) {
+static mut ULOG: [(u16, usize, u8); 10] = [(0, 0, 0); 10];
+static mut ULEN: usize = 0;
+pub fn update_stub<FB: FrameBuffer>(_s: &mut ZXScreen<FB>, rel_addr: u16, bank: usize, data: u8) {
+    unsafe {
+        if ULEN < 10 {
+            ULOG[ULEN] = (rel_addr, bank, data);
+        }
+        ULEN += 1;
+    }
+}
+
+fn check(machine: ZXMachine) {
     let mut c = ZXController::<VHost>::new(&settings(machine, false, false, false), VContext);
     if machine == ZXMachine::Sinclair128K {
-        // the other screen bank is the displayed one: refresh must not depend on what is displayed
-        c.write_7ffd(if ram_bank == 5 { 0x08 } else { 0x00 });
+        let latch: u8 = kani::any();
+        c.write_7ffd(latch); // any displayed bank / paging state
     }
-    // first / last display byte and first / last attribute byte of the bank (concrete offsets: a
-    // symbolic offset did not finish in 40 min), symbolic values
-    let offs: [usize; 4] = [0x0000, 0x17FF, 0x1800, 0x1AFF];
-    let vals: [u8; 4] = kani::any();
-    let mut k = 0;
-    while k < 4 {
-        c.memory.ram_page_data_mut(ram_bank)[offs[k]] = vals[k];
-        k += 1;
+    let content: [[u8; 4]; 8] = kani::any();
+    unsafe {
+        super::sna::set_vpages(content);
+        ULEN = 0;
     }
     c.refresh_memory_dependent_devices();
-    let mut k = 0;
-    while k < 4 {
-        let off = offs[k];
-        let v = vals[k];
-        if off < 0x1800 {
-            let idx = bitmap_line_rel(off as u16) * 32 + bitmap_col_rel(off as u16);
-            kani::assert(c.screen.verif_bitmap(local, idx) == v, "C08: refresh copies the display bytes of every display bank into the shadow");
-        } else {
-            let a = c.screen.verif_attr(local, off - 0x1800);
-            let ink: u8 = a.ink.into();
-            let paper: u8 = a.paper.into();
-            kani::assert(ink == v & 7 && paper == (v >> 3) & 7 && a.flash == (v & 0x80 != 0)
-                && (a.brightness as u8 == 1) == (v & 0x40 != 0),
-                "C08: refresh decodes the attribute bytes of every display bank into the shadow");
+    let banks: &[usize] = if machine == ZXMachine::Sinclair48K { &[0] } else { &[5, 7] };
+    let mut n = 0;
+    let mut b = 0;
+    while b < banks.len() {
+        let mut i = 0;
+        while i < 4 {
+            let e = unsafe { ULOG[n] };
+            kani::assert(e == (i as u16, banks[b], content[banks[b]][i]),
+                "C08: refresh forwards every byte of every display bank (48K: 0; 128K: 5 and 7) to the screen shadow");
+            n += 1;
+            i += 1;
         }
-        k += 1;
+        b += 1;
     }
+    kani::assert(unsafe { ULEN } == n, "C08: refresh forwards nothing else");
     kani::cover!(true);
 }
 
 macro_rules! refresh {
-    ($name:ident, $m:expr, $bank:expr, $local:expr) => {
+    ($name:ident, $m:expr) => {
         #[kani::proof]
-        #[kani::unwind(16386)]
+        #[kani::unwind(10)]
         #[kani::stub(libm::sqrt, sqrt_stub)]
+        #[kani::stub(crate::zx::memory::ZXMemory::ram_page_data, page_stub)]
+        #[kani::stub(crate::zx::video::screen::ZXScreen::update, update_stub)]
         fn $name() {
-            check($m, $bank, $local);
+            check($m);
         }
     };
 }
-refresh!(refresh_shadow_48k, ZXMachine::Sinclair48K, 0, 0);
-refresh!(refresh_shadow_128k_bank5, ZXMachine::Sinclair128K, 5, 0);
-refresh!(refresh_shadow_128k_bank7, ZXMachine::Sinclair128K, 7, 1);
+refresh!(refresh_shadow_48k, ZXMachine::Sinclair48K);
+refresh!(refresh_shadow_128k, ZXMachine::Sinclair128K);
